@@ -280,7 +280,7 @@ func (s *Sim) setupHyperlane() error {
 }
 
 // HypRouterGas is the gas the enrolled routers use when a transfer names no gas limit.
-const HypRouterGas = 50000
+const HypRouterGas = 200
 
 // IGP describes an interchain gas paymaster of the chain: its quote for a transfer to Domain with gas limit g is
 // (g + Overhead) * Price * Rate / 10^10 of Denom (hyperlane-cosmos QuoteGasPayment).
